@@ -25,6 +25,18 @@ def build_root(rnd, root, label, depth=0, max_depth=3, prefix=''):
             if not sub and kind >= 0.6:
                 sub = {d + 'leaf.py': _module_text(rnd, label, d + 'leaf.py')}
             files.update(sub)
+            init = d + '__init__.py'
+            if init in files and rnd.random() < 0.45:
+                # the package re-exports one of its own sub-modules with a relative from-import
+                # (only an existing child, so importing the package cannot fail)
+                children = sorted({rel[len(d):].split('/')[0].replace('.py', '')
+                                   for rel in sub if rel.startswith(d)} - {'__init__'})
+                # (not a name the __init__ also assigns: `from . import x` then binds that
+                # attribute, not the sub-module -- the attribute/sub-module clash is probed by
+                # the plain attribute lines already)
+                children = [c for c in children if ('\n%s = ' % c) not in files[init]]
+                if children:
+                    files[init] += 'from . import %s\n' % rnd.choice(children)
     if depth == 0:
         for rel, text in files.items():
             p = os.path.join(root, rel)
